@@ -1,4 +1,6 @@
 import Model.C12
+import Model.C02
+import Model.C14
 /-!
 # C13 — a ring client's answers depend only on the latest ring content
 
@@ -250,5 +252,122 @@ def pqueryShardLB (c : PClient) (st : PStreams) (ident : String) (size period no
       | some e => decide (e.after < w)
       | none => true
     (ids, if store then { c with lbCache := setAssoc k ⟨ids, w, pvalidBefore c.parts ids w⟩ c.lbCache } else c)
+
+
+/-! ## further reads of the client: `Get` (any operation / replication factor), `GetReplicationSetForOperation`,
+`GetTokenRangesForInstance`, `Zones`, and `Get` on a returned shuffle-shard sub-ring
+
+Every read takes the *index descriptor* `ix` (what `ringTokens`, `ringTokensByZone`,
+`ringInstanceByToken`, `ringZones`, `instancesCountPerZone` were last rebuilt from) and the *latest
+descriptor* `d` (`r.ringDesc`) separately, exactly as the Go methods mix them; for a fresh client the
+two coincide. `PfC13.read*_fresh` show that with `ix = d` these are `C01.getWith`, `C02.getAll`
+and `C14.rangesForInstance` (the models the other properties prove things about). -/
+
+/-- `ringInstanceByToken[t]`: `instanceInfo{InstanceID, Zone}` of the entry that registered `t`. -/
+def ownerInfo (ix : Desc) (t : Nat) : Option (String × String) := (C01.tokenInfo ix t).map fun i => (i.id, i.zone)
+
+/-- the loop of `findInstancesForKey`: token owner and zone from `ringInstanceByToken`, per-zone totals
+from `instancesCountPerZone`, the instance itself from `r.ringDesc.Ingesters[info.InstanceID]`
+(a missing key yields Go's zero `InstanceDesc`). -/
+def rwalk (cfg : C01.Cfg) (owner : Nat → Option (String × String)) (total : String → Nat) (d : Desc)
+    (zones : List String) (target : Nat) (op : C01.Op) : List Nat → C01.WalkSt → Except C01.Err (List Inst)
+  | [], _ => .ok []
+  | t :: rest, st =>
+    if ¬ (st.distinct.length < min d.length st.size) then .ok []
+    else if cfg.zoneAware && C01.canStopLooking zones total st target then .ok []
+    else match owner t with
+      | none => .error .inconsistentTokens
+      | some (id, zone) =>
+        if st.distinct.contains id then rwalk cfg owner total d zones target op rest st
+        else if cfg.zoneAware && !zones.contains zone then .error .inconsistentTokens
+        else if cfg.zoneAware && zone != "" && decide (st.found zone ≥ target) then
+          rwalk cfg owner total d zones target op rest st
+        else
+          let inst := (d.get? id).getD { id := "" }
+          (rwalk cfg owner total d zones target op rest (st.select cfg op { inst with id := id, zone := zone })).map (inst :: ·)
+
+/-- `Ring.Get` / `GetWithOptions` (`getReplicationSetForKey`). -/
+def readGet (cfg : C01.Cfg) (ix d : Desc) (key : Nat) (op : C01.Op) (now : Int) (rfCall : Int) : Except C01.Err C01.RSet :=
+  let tokens := C01.sortedTokens ix
+  if tokens.length = 0 then .error .emptyRing else
+  let rf : Nat := if rfCall ≤ 0 ∨ rfCall < cfg.rf then cfg.rf else rfCall.toNat
+  if rf > cfg.rf then .error .rfTooLarge
+  else if cfg.rf = 0 then .error .panic
+  else do
+    let target := max 1 (rf / cfg.rf)
+    let instances ← rwalk cfg (ownerInfo ix) (C01.zoneTotal ix) d (C01.ringZones ix) target op
+      (C01.rot tokens (C01.searchToken tokens key)) { size := rf }
+    C01.filter cfg op now rf instances
+
+/-- `Ring.GetReplicationSetForOperation`: emptiness from `ringTokens`, the zone count from `ringZones`
+(both index), the instances from the latest descriptor. -/
+def readAll (cfg : C01.Cfg) (ix d : Desc) (op : C01.Op) (now : Int) : Except C01.Err C02.RSetAll :=
+  if (C01.sortedTokens ix).length = 0 then .error .emptyRing else
+  let healthy := d.filter (C01.isHealthy op cfg.hbTimeout now)
+  let zoneFailures := C02.zonesOf (d.filter (fun i => !C01.isHealthy op cfg.hbTimeout now i))
+  if cfg.zoneAware then
+    let numReplicatedZones := min (C02.zonesOf ix).length cfg.rf
+    let minSuccessZones := numReplicatedZones / 2 + 1
+    let maxUnavailableZones := minSuccessZones - 1
+    if zoneFailures.length > maxUnavailableZones then .error .tooManyUnhealthy
+    else
+      let healthy :=
+        if zoneFailures.length > 0 then healthy.filter (fun i => !zoneFailures.contains i.zone) else healthy
+      .ok { instances := healthy, maxErrors := 0,
+            maxUnavailableZones := maxUnavailableZones - zoneFailures.length, zoneAware := true }
+  else
+    let numRequired := (if d.length < cfg.rf then cfg.rf else d.length) - cfg.rf / 2
+    if healthy.length < numRequired then .error .tooManyUnhealthy
+    else .ok { instances := healthy, maxErrors := healthy.length - numRequired,
+               maxUnavailableZones := 0, zoneAware := false }
+
+/-- `Ring.GetTokenRangesForInstance`: the instance (its zone) from the latest descriptor; the number of
+zones, the zone's token list and the owner flags from the indexes. -/
+def readRanges (cfg : C01.Cfg) (ix d : Desc) (id : String) : Except C14.Err (List Nat) :=
+  match d.get? id with
+  | none => .error .notFound
+  | some inst =>
+    if inst.zone == "" then .error .zoneNotSet
+    else if !cfg.zoneAware || cfg.rf != (C14.zonesOf ix).length then .error .badConfig
+    else
+      let toks := (C14.zoneTokens ix inst.zone).map (·.1)
+      if toks.isEmpty then .error .noTokensForZone
+      else match C14.zoneFlagsOf ix toks id with
+        | none => .error .inconsistent
+        | some zt => .ok (C14.instRangesOf zt)
+
+/-- `Ring.Zones()` -/
+def readZones (ix : Desc) : List String := C01.ringZones ix
+
+/-- `Get` on a sub-ring built by `buildRingForTheShard`: its own token / zone / count indexes come from
+its member descriptors (`ringInstanceByToken` is the parent's map, a superset that agrees on the
+members' tokens). -/
+def subGet (cfg : C01.Cfg) (members : Desc) (key : Nat) (op : C01.Op) (now : Int) : Except C01.Err C01.RSet :=
+  readGet cfg members members key op now cfg.rf
+
+def Client.rcfg (c : Client) (rf : Nat) (hb : Int) : C01.Cfg := { rf := rf, zoneAware := c.cfg.zoneAware, hbTimeout := hb }
+
+/-- `ShuffleShard(ident, size).Get(key, op)` on the client as it is (the cache is looked up, not updated). -/
+def getOnShard (c : Client) (st : Streams) (rf : Nat) (hb : Int) (ident : String) (size : Int) (key : Nat) (op : C01.Op) (now : Int) :
+    Except C01.Err C01.RSet :=
+  match lookupAssoc (⟨ident, size⟩ : Key) c.cache with
+  | some s => subGet (c.rcfg rf hb) (refresh c.desc s).members key op now
+  | none =>
+    if isSelf c size 0 0 then readGet (c.rcfg rf hb) c.idx c.desc key op now rf
+    else subGet (c.rcfg rf hb) (computeMembers c st ident size 0 0) key op now
+
+/-- `ShuffleShardWithLookback(ident, size, period, qnow).Get(key, op)`. -/
+def getOnShardLB (c : Client) (st : Streams) (rf : Nat) (hb : Int) (ident : String) (size period qnow : Int) (key : Nat)
+    (op : C01.Op) (now : Int) : Except C01.Err C01.RSet :=
+  let w := qnow - period
+  let hit : Option LBEntry :=
+    match lookupAssoc (⟨ident, size, period⟩ : LKey) c.lbCache with
+    | some e => if w < e.after || w > e.before then none else some e
+    | none => none
+  match hit with
+  | some e => subGet (c.rcfg rf hb) (refresh c.desc e.sub).members key op now
+  | none =>
+    if isSelf c size period qnow then readGet (c.rcfg rf hb) c.idx c.desc key op now rf
+    else subGet (c.rcfg rf hb) (computeMembers c st ident size period qnow) key op now
 
 end C13
